@@ -386,3 +386,42 @@ theorem Turns.smul_mulVec_eps {R : M33 (Jet K)} {w : V3 K} (hR : Turns R w) (t :
   mob_unfold; ring_all
 
 end Mobilizer
+
+namespace Mobilizer
+variable {K : Type} [Field K]
+
+omit [Field K] in
+theorem Jet.ext' {a b : Jet K} (h1 : a.re = b.re) (h2 : a.eps = b.eps) : a = b := by
+  cases a; cases b; simp_all
+
+/-- reduce jet arithmetic under `.re` / `.eps` -/
+macro "jet_simp" : tactic => `(tactic| simp only [
+      Jet.const, Jet.var, Jet.cosL, Jet.sinL, Jet.oocosL, Jet.invSqrtL,
+      Jet.add_re, Jet.add_eps, Jet.sub_re, Jet.sub_eps, Jet.mul_re, Jet.mul_eps, Jet.neg_re, Jet.neg_eps,
+      Jet.div_re, Jet.div_eps, Jet.zero_re, Jet.zero_eps, Jet.one_re, Jet.one_eps, Jet.two_re, Jet.two_eps])
+
+/-- the Hamilton sandwich and the coded matrix agree on jets too -/
+theorem docRq_cols_jet (e : Q4 (Jet K)) :
+    M33.ofCols (Q4.rotate e V3.ex) (Q4.rotate e V3.ey) (Q4.rotate e V3.ez) = rotQuat e := by
+  obtain ⟨⟨a0, a1⟩, ⟨b0, b1⟩, ⟨c0, c1⟩, ⟨d0, d1⟩⟩ := e
+  simp only [rotQuat, M33.ofCols, Q4.rotate, Q4.hmul, Q4.conj, V3.ex, V3.ey, V3.ez, M33.mk.injEq]
+  repeat' apply And.intro
+  all_goals (apply Jet.ext' <;> jet_simp <;> ring1)
+
+theorem rotQuat_var_re (e ed : Q4 K) : (rotQuat (Q4.var e ed)).re = rotQuat e := by
+  simp only [rotQuat]; mob_unfold
+
+section
+variable [CharZero K]
+/-- normalising a quaternion that moves with `q̇ = N(q) ω` gives a quaternion moving with `ė = N(e) ω`
+(the norm is constant along the motion because `q · N(q) ω = 0`) -/
+theorem smul_var_quat_N (q : Q4 K) (r : K) (w : V3 K) :
+    Q4.smul (Jet.invSqrtL (Q4.normSq (Q4.var q (quat_N q w))) r) (Q4.var q (quat_N q w))
+      = Q4.var (Q4.smul r q) (quat_N (Q4.smul r q) w) := by
+  obtain ⟨a, b, c, d⟩ := q; obtain ⟨x, y, z⟩ := w
+  simp only [Q4.smul, Q4.var, Q4.normSq, quat_N, Q4.mk.injEq]
+  repeat' apply And.intro
+  all_goals (apply Jet.ext' <;> jet_simp <;> ring1)
+end
+
+end Mobilizer
